@@ -16,6 +16,11 @@
 //                                        b: async_bcast) -> "precv <uid> <value ok> <functor ok>"; also the only
 //                                        mode of the small -DWIRE_PROBE_ONLY build (compiled at -O0 by the check)
 //   wire traffic ... <sb>                sb=1: broadcasts also use handler types with functor state
+//   wire ptrbig <seed> <N>               every rank registers N (> 65536) ygm_ptr<PObj> (direct construction, no collective),
+//                                        then pointers with indices around 2^16, 2^17 and up to N-1 travel through async
+//                                        and async_bcast, alone and inside a vector; the handler dereferences them:
+//                                        "psent <uid> <dest|-1> <want..>" / "precv <uid> <want> <arrived index> <object ok> <address ok>"
+//   (ser/load: ygm_ptr values are forged with indices up to 2^32-1 — they are archived, never dereferenced)
 #include "hcommon.hpp"
 #include <ygm/comm.hpp>
 #include <cstring>
@@ -61,7 +66,7 @@ static bool get_hex(const std::string& s, std::vector<std::byte>& out) {
   for (size_t i = 1; i + 1 < s.size(); i += 2) out.push_back((std::byte)(v(s[i]) * 16 + v(s[i + 1]))); return true; }
 
 // ----------------------------------------------------------------- globals of one rank process
-struct Ctx { uint64_t seed = 1; size_t big = 300; int rank = 0; int nranks = 1; ygm::comm* comm = nullptr; bool stateful_bcast = true; } ctx;
+struct Ctx { uint64_t seed = 1; size_t big = 300; int rank = 0; int nranks = 1; ygm::comm* comm = nullptr; bool stateful_bcast = true; bool forge_ptrs = false; } ctx;
 static const int NPTR = 5;
 static int g_pool[NPTR];
 static std::vector<ygm::ygm_ptr<int>>& ptrs() { static std::vector<ygm::ygm_ptr<int>> p; return p; }
@@ -111,7 +116,15 @@ template <class... Ts> struct D<std::tuple<Ts...>> {
   static std::tuple<Ts...> gen(rng& g, size_t sz, int depth) { return std::tuple<Ts...>{D<Ts>::gen(g, sz, depth)...}; }   // braced init: left to right
   static void put(std::string& o, const std::tuple<Ts...>& v) { std::apply([&o](const Ts&... e) { (D<Ts>::put(o, e), ...); }, v); } };
 template <> struct D<ygm::ygm_ptr<int>> { static std::string ty() { return "ptr"; }
-  static ygm::ygm_ptr<int> gen(rng& g, size_t, int) { return ptrs()[g.below(NPTR)]; }
+  // archive-only modes: any 32-bit index (the object is 4 bytes: its uint32_t idx); such pointers are never dereferenced
+  static ygm::ygm_ptr<int> forge(uint32_t idx) {
+    if constexpr (sizeof(ygm::ygm_ptr<int>) == sizeof(uint32_t)) { ygm::ygm_ptr<int> p; memcpy((void*)&p, &idx, sizeof idx); return p; }
+    else return ptrs()[idx % NPTR]; }
+  static ygm::ygm_ptr<int> gen(rng& g, size_t, int) {
+    if (!ctx.forge_ptrs) return ptrs()[g.below(NPTR)];
+    switch (g.below(9)) { case 0: return ptrs()[g.below(NPTR)]; case 1: return forge(65535); case 2: return forge(65536); case 3: return forge(65537 + (uint32_t)g.below(5000));
+      case 4: return forge(0x7fffffffu + (uint32_t)g.below(2)); case 5: return forge(0xfffffffeu + (uint32_t)g.below(2)); case 6: return forge((uint32_t)g.next());
+      case 7: return forge((uint32_t)(65536 * (1 + g.below(65535)))); default: return forge((uint32_t)(65536 + g.below(1u << 20))); } }
   static void put(std::string& o, const ygm::ygm_ptr<int>& v) { tok(o, std::to_string(v.index())); } };
 template <> struct D<User1> { static std::string ty() { return "tup 3 u32 str vec i16"; }
   static User1 gen(rng& g, size_t sz, int depth) { User1 u; u.a = D<uint32_t>::gen(g, sz, depth); u.s = D<std::string>::gen(g, sz, depth); u.v = D<std::vector<int16_t>>::gen(g, sz, depth); return u; }
@@ -232,13 +245,63 @@ template <size_t... I> static std::vector<Handler> make_handlers(std::index_sequ
 static void read_lines(const char* path, std::vector<std::vector<std::string>>& out) {
   std::ifstream f(path); std::string line; while (std::getline(f, line)) { std::stringstream ss(line); std::vector<std::string> w; std::string t; while (ss >> t) w.push_back(t); if (!w.empty()) out.push_back(w); } }
 
+// ----------------------------------------------------------------- ptrbig: pointers whose registry index exceeds 16 bits
+struct PObj { uint64_t tag; };
+static std::vector<PObj> g_objs;
+static uint64_t ptag(int rank, uint64_t i) { return mix(0xabcd00 + rank, i); }
+static void ptr_report(uint64_t uid, uint32_t want, const ygm::ygm_ptr<PObj>& p) {
+  bool inreg = p.index() < g_objs.size();
+  bool tagok = inreg && (*p).tag == ptag(ctx.rank, want);          // dereference: must reach the object the sender pointed to
+  bool addrok = inreg && &*p == &g_objs[want];
+  hc::out("precv " + std::to_string(uid) + " " + std::to_string(want) + " " + std::to_string(p.index()) + " " + (tagok ? "1" : "0") + " " + (addrok ? "1" : "0")); }
+static int run_ptrbig(int argc, char** argv) {
+  ctx.seed = strtoull(argv[2], 0, 10); size_t N = strtoull(argv[3], 0, 10);
+  ygm::comm world(MPI_COMM_WORLD); ctx.comm = &world; ctx.rank = world.rank(); ctx.nranks = world.size();
+  hc::open_out(world.rank());
+  g_objs.resize(N); for (size_t i = 0; i < N; ++i) g_objs[i].tag = ptag(ctx.rank, i);
+  std::vector<ygm::ygm_ptr<PObj>> ps; ps.reserve(N);
+  for (size_t i = 0; i < N; ++i) ps.emplace_back(&g_objs[i]);       // ygm_ptr(T*): idx = sptrs.size(); sptrs.push_back(t)
+  hc::out("registered " + std::to_string(N) + " " + std::to_string(ps.front().index()) + " " + std::to_string(ps.back().index()));
+  world.barrier();
+  rng g(mix(ctx.seed, 99 + ctx.rank));
+  std::vector<uint32_t> idxs = {0, 1, 255, 65534, 65535, 65536, 65537, 65541, 69999, 131071, 131072, 131073, 196608, (uint32_t)(N - 1), (uint32_t)(N - 2)};
+  for (int i = 0; i < 6; ++i) idxs.push_back((uint32_t)g.below(N));
+  for (int i = 0; i < 4; ++i) idxs.push_back((uint32_t)(65536 + g.below(N - 65536)));
+  uint64_t seq = 0;
+  auto h1 = [](uint64_t uid, uint32_t want, const ygm::ygm_ptr<PObj>& p) { ptr_report(uid, want, p); };
+  auto h2 = [](uint64_t uid, const std::vector<uint32_t>& want, const std::vector<ygm::ygm_ptr<PObj>>& v) {
+    if (v.size() != want.size()) { hc::out("precv " + std::to_string(uid) + " 0 0 0 0 size-mismatch"); return; }
+    for (size_t i = 0; i < v.size(); ++i) ptr_report(uid, want[i], v[i]); };
+  for (uint32_t ix : idxs) {
+    if (ix >= N) continue;
+    uint64_t uid = ((uint64_t)(ctx.rank + 1) << 32) | seq++; int dest = (int)g.below(ctx.nranks);
+    hc::out("psent " + std::to_string(uid) + " " + std::to_string(dest) + " " + std::to_string(ix));
+    world.async(dest, h1, uid, ix, ps[ix]);
+    if (g.below(3) == 0) {
+      uid = ((uint64_t)(ctx.rank + 1) << 32) | seq++;
+      hc::out("psent " + std::to_string(uid) + " -1 " + std::to_string(ix));
+      world.async_bcast(h1, uid, ix, ps[ix]); }
+  }
+  for (int rep = 0; rep < 3; ++rep) {   // several pointers in one container argument, neighbours on both sides of 2^16
+    std::vector<uint32_t> want; std::vector<ygm::ygm_ptr<PObj>> v; std::string w;
+    size_t n = 2 + g.below(6); for (size_t i = 0; i < n; ++i) { uint32_t ix = idxs[g.below(idxs.size())]; if (ix >= N) ix = (uint32_t)(N - 1); want.push_back(ix); v.push_back(ps[ix]); w += " " + std::to_string(ix); }
+    uint64_t uid = ((uint64_t)(ctx.rank + 1) << 32) | seq++; bool bc = rep == 2; int dest = (int)g.below(ctx.nranks);
+    hc::out("psent " + std::to_string(uid) + " " + std::to_string(bc ? -1 : dest) + w);
+    if (bc) world.async_bcast(h2, uid, want, v); else world.async(dest, h2, uid, want, v);
+  }
+  world.barrier();
+  hc::out("done");
+  return 0; }
+
 extern "C" int sim_main(int argc, char** argv) {
   std::string mode = argc > 1 ? argv[1] : "shapes";
   if (mode == "probe") return probe::run(argc, argv);
+  if (mode == "ptrbig") return run_ptrbig(argc, argv);
   auto ops = make_ops(std::make_index_sequence<NSHAPES>{});
   if (mode == "shapes" || mode == "ser" || mode == "load") {
     hc::open_out(0);
     for (int i = 0; i < NPTR; ++i) { g_pool[i] = pool_value(0, i); ptrs().push_back(ygm::ygm_ptr<int>(&g_pool[i])); }
+    ctx.forge_ptrs = true;
     if (mode == "shapes") { for (size_t i = 0; i < ops.size(); ++i) hc::out("shape " + std::to_string(i) + " | " + ops[i].ty()); return 0; }
     ctx.seed = strtoull(argv[2], 0, 10); ctx.big = strtoull(argv[3], 0, 10);
     std::vector<std::vector<std::string>> cases; read_lines(argv[4], cases);
